@@ -370,7 +370,10 @@ func c01Datagrams(c *Ctx) {
 				cc, ok := x.(*ssa.Call)
 				return ok && builtinName(&cc.Call) == "copy" && cc.Call.Args[0] == ssa.Value(ms) && Load(dData)(cc.Call.Args[1])
 			}
-			okCopy = (&Cut{Fn: h, Target: func(x ssa.Instruction) bool { return x == in }, Barrier: isCopy}).Run() == nil && refersTo(cl.Call.Args[1], ms)
+			// the appended element is the fresh slice, directly or through the parameter of a private helper that is
+			// only called with it (the critical section extracted into a helper)
+			isFresh := refersTo(cl.Call.Args[1], ms) || refersToThroughParam(cl.Call.Args[1], ms)
+			okCopy = (&Cut{Fn: h, Target: func(x ssa.Instruction) bool { return x == in }, Barrier: isCopy}).Run() == nil && isFresh
 		}
 		c.Check(okCopy, R, "copy:queued datagram is a private copy of the frame's data", c.P.InstrPos(in), "the payload handed to the application does not alias the packet buffer that is recycled after frame handling")
 	}
@@ -392,6 +395,54 @@ func c01Datagrams(c *Ctx) {
 	// who delivers datagram frames
 	hdf := c.obj("", "datagramQueue", "HandleDatagramFrame")
 	c.checkCallers(R, hdf, c.set([3]string{"", "Conn", "handleDatagramFrame"}), 1)
+}
+
+// refersToThroughParam: v is built from a parameter of a private helper whose every call site passes x for it.
+func refersToThroughParam(v ssa.Value, x ssa.Value) bool {
+	found := false
+	seen := map[ssa.Value]bool{}
+	var walk func(y ssa.Value, d int)
+	walk = func(y ssa.Value, d int) {
+		if y == nil || seen[y] || d > 8 || found {
+			return
+		}
+		seen[y] = true
+		if prm, ok := y.(*ssa.Parameter); ok {
+			if throughParam(prm, func(a ssa.Value) bool { return a == x }) {
+				found = true
+			}
+			return
+		}
+		switch z := y.(type) {
+		case *ssa.Slice:
+			walk(z.X, d+1)
+		case *ssa.Alloc:
+			if rs := z.Referrers(); rs != nil {
+				for _, r := range *rs {
+					switch w := r.(type) {
+					case *ssa.Store:
+						walk(w.Val, d+1)
+					case *ssa.IndexAddr:
+						if rs2 := w.Referrers(); rs2 != nil {
+							for _, r2 := range *rs2 {
+								if st, ok := r2.(*ssa.Store); ok {
+									walk(st.Val, d+1)
+								}
+							}
+						}
+					}
+				}
+			}
+		case *ssa.UnOp:
+			walk(z.X, d+1)
+		case *ssa.Convert:
+			walk(z.X, d+1)
+		case *ssa.ChangeType:
+			walk(z.X, d+1)
+		}
+	}
+	walk(v, 0)
+	return found
 }
 
 // refersTo: v (an append's variadic slice) is built from value x.
